@@ -206,8 +206,33 @@ class LT(object):
     def __setitem__(self, idx, val):
         if isinstance(val, LTView) and val._base is self and val._idx is idx:
             return          # a[idx] += v: the view already wrote through
+        if isinstance(idx, tuple) and any(isinstance(it, LT) for it in idx):
+            return self._assign_index_tensors(idx, val)
         spec, vshape = _parse_index(self._shape, idx)
         self._assign(spec, vshape, val)
+
+    def _assign_index_tensors(self, idx, val):
+        """a[..., I, J] = v with I, J index tensors produced by arange (position k of both selects one entry)"""
+        items = list(idx)
+        if not (len(items) == 3 and items[0] is Ellipsis and all(isinstance(it, LT) and getattr(it, "_affine", None) for it in items[1:])
+                and len(self._shape) >= 2):
+            raise OutOfSubset("LAM: assignment through index tensors of this form")
+        (s1, t1, n1), (s2, t2, n2) = items[1]._affine, items[2]._affine
+        if not _same_dim(n1, n2):
+            raise IndexError("shape mismatch: indexing tensors could not be broadcast together")
+        if not isinstance(val, LT):
+            c_ = _num(val)
+            val = LT((), lambda ix: c_, "real")
+        lead = tuple(self._shape[:-2])
+        valb = _broadcast_to(val, lead + (_dim(n1),))
+        vf, old = valb.fn, self.fn
+
+        def new(ix):
+            r, cc = ix[-2], ix[-1]
+            k = (r - s1) / t1 if t1 != 1 else r - s1
+            cond = z3.And(k >= 0, k < n1, r == s1 + t1 * k, cc == s2 + t2 * k)
+            return z3.If(cond, vf(tuple(ix[:-2]) + (k,)), old(ix))
+        self._store(new)
 
     def _assign(self, spec, vshape, val):
         if not isinstance(val, LT):
@@ -1112,8 +1137,31 @@ class _Namespace(types.SimpleNamespace):
         raise OutOfSubset("LAM: torch.%s is not modelled" % name)
 
 
+def arange(*args, device=None, dtype=None):
+    if len(args) == 1:
+        lo, hi, st = 0, args[0], 1
+    elif len(args) == 2:
+        lo, hi, st = args[0], args[1], 1
+    else:
+        lo, hi, st = args
+    if not (isinstance(st, int) and st >= 1):
+        raise OutOfSubset("LAM arange step %r" % (st,))
+    lo_e, hi_e = _z(lo), _z(hi)
+    n = _max2((hi_e - lo_e + (st - 1)) / st if st != 1 else hi_e - lo_e, z3.IntVal(0))
+    t = LT((n,), lambda ix: lo_e + st * ix[-1], "int")
+    t._affine = (lo_e, st, z3.simplify(n))
+    return t
+
+
+def allclose(a, b, rtol=1e-5, atol=1e-8):
+    """close within a tolerance: not a function of the real values alone - both outcomes are explored"""
+    c = ctx()
+    return c.branch(z3.Bool(c.fresh("allclose")))
+
+
 def make_torch():
     t = _Namespace()
+    t.arange, t.allclose = arange, allclose
     t.min, t.max = _extremum("min"), _extremum("max")
     t.Tensor = LT
     t.numel, t.searchsorted, t.clamp, t.gather = numel, searchsorted, clamp, gather
